@@ -24,7 +24,7 @@ ASSUMPTIONS = ["datetime/timedelta modelled by vlib.symdt (self-checked against 
 
 
 def configs(tier):
-    return timeh.c16_configs(tier)
+    return timeh.c16_configs(tier) + timeh.c16_history_configs(tier)
 
 
 def precheck(tier):
